@@ -517,6 +517,34 @@ def RI (st : St) : Prop := Timed st ∧ KU st ∧ Acc st
 def AgeOK (e : Event) : Prop :=
   (e.result.status = .timeout → e.age = 5) ∧ (e.result.status ≠ .timeout → e.age < 5)
 
+theorem sockEvent_ri {st : St} (a : KAns) (h : RI st) :
+    RI (sockEvent st a).1 ∧ ∀ e ∈ (sockEvent st a).2, AgeOK e := by
+  obtain ⟨ht, hk, ha⟩ := h
+  have hp := sockEvent_pres st a hk ha
+  rcases sockEvent_cases st a with e | ⟨d, e⟩
+  · rw [e]; exact ⟨⟨ht, hk, ha⟩, by simp⟩
+  · rw [e] at hp ⊢
+    refine ⟨⟨timed_of_grow ht (onRecv_grow st _), hp⟩, ?_⟩
+    intro ev he
+    have := onRecv_age _ ht ev he
+    exact ⟨fun h => absurd h this.1, fun _ => this.2⟩
+
+theorem sockRun_ri : ∀ (as : List KAns) {st : St}, RI st →
+    RI (sockRun st as).1 ∧ ∀ e ∈ (sockRun st as).2, AgeOK e := by
+  intro as
+  induction as with
+  | nil => intro st h; exact ⟨h, by simp [sockRun]⟩
+  | cons a as ih =>
+    intro st h
+    have h1 := sockEvent_ri a h
+    have h2 := ih h1.1
+    refine ⟨h2.1, ?_⟩
+    intro e he
+    simp only [sockRun, List.mem_append] at he
+    rcases he with he | he
+    · exact h1.2 e he
+    · exact h2.2 e he
+
 theorem step_ri {st : St} (op : Op) (h : RI st) :
     RI (step st op).1 ∧ ∀ e ∈ (step st op).2.events, AgeOK e := by
   obtain ⟨ht, hk, ha⟩ := h
@@ -543,6 +571,13 @@ theorem step_ri {st : St} (op : Op) (h : RI st) :
     intro e he
     have := this.2 e he
     exact ⟨fun _ => this.2, fun h => absurd this.1 h⟩
+  | lookupN name sid send => exact ⟨⟨timed_of_grow ht (lookup_grow st sid), hp⟩, by simp [step]⟩
+  | sock as => exact sockRun_ri as ⟨ht, hk, ha⟩
+  | recvAt k d =>
+    refine ⟨⟨timed_of_grow ht (onRecv_grow st d), hp⟩, ?_⟩
+    intro e he
+    have := onRecv_age d ht e he
+    exact ⟨fun h => absurd h this.1, fun _ => this.2⟩
 
 theorem run_ri : ∀ (ops : List Op) (st : St), RI st →
     RI (run st ops).1 ∧ ∀ e ∈ allEvents (run st ops).2, AgeOK e := by
